@@ -142,6 +142,9 @@ def run(ctx):
             gdims = d.spec['kinds'][kind]
             bad = None
             want_vars = [nm for nm, _, dims in vars_ if set(dims) & set(gdims)]
+            # the generator's own marker variable that gives a declared edge dimension its size
+            if 'edge_marker' in ds.data_vars and set(ds['edge_marker'].dims) & set(gdims):
+                want_vars.append('edge_marker')
             have = [str(x) for x in out.data_vars]
             geom = {str(x) for x in ems.get_all_geometry_names()}
             if set(have) & geom:
@@ -262,3 +265,50 @@ def run(ctx):
                 elif impl is not None and (impl[0] != m_code or impl[1] != m_labels):
                     ctx.report('correspondence', f'{cname}: model Select.extract {m_code, m_labels} and implementation '
                                f'{impl} differ', dict(case, call=cname), found_input=False)
+
+    # ---------- a history on one dataset object: select, edit a variable in place / add one, select again.
+    # Every selection must return the values stored at the time of the call.
+    import shapely as _shapely
+    for n in range(4 if quick else 20):
+        d = gen.any_dataset(rng, gen.FAMILIES[n % len(gen.FAMILIES)])
+        ds = d.ds
+        flav = FLAVOUR[d.family]
+        vars_ = gen.add_data_vars(rng, ds, {'face': d.spec['kinds']['face']}, n_extra_max=1, names_prefix='h')
+        vname = vars_[0][0]
+        ems = ds.ems
+        enums = all_kind_enums(ems)
+        shape = expected_shapes(d)['face']
+        gdims = d.spec['kinds']['face']
+        rows = [[rng.randrange(s) for s in shape] for _ in range(3)]
+        natives = [to_native(flav, enums, 'face', r) for r in rows]
+        case = {'dataset': d.spec['label'], 'op': 'select_indexes / edit in place / select_indexes', 'indexes': rows, 'variable': vname}
+        ctx.case((d.spec['label'], 'history', str(rows)), True)
+        ctx.count('op:history_select_edit_select')
+        first = attempt(ems.select_indexes, natives)
+        if first[0] != 'ok':
+            ctx.report('property', f'select_indexes failed: {first[1]}', case)
+            continue
+        ds[vname] = ds[vname] + 1000.0
+        ds['added_later'] = ds[vname] * 2.0
+        second = attempt(lambda: ds.ems.select_indexes(natives))
+        bad = None
+        if second[0] != 'ok':
+            bad = f'second select_indexes failed: {second[1]}'
+        else:
+            out = second[1]
+            for name in (vname, 'added_later'):
+                if name not in out.data_vars:
+                    bad = f'variable {name} (defined on the selected grid when the selection was made) is missing'
+                    break
+                for k, r in enumerate(rows):
+                    raw = ds[name].isel({gd: ix for gd, ix in zip(gdims, r)}).values
+                    got = out[name].isel(index=k).values
+                    if not nan_equal(got, raw):
+                        bad = (f'{name} row {k} = {numpy.asarray(got).reshape(-1)[:4].tolist()}, the value stored at cell {r} is '
+                               f'{numpy.asarray(raw).reshape(-1)[:4].tolist()} (a selection made before the edit is being reused)')
+                        break
+                if bad:
+                    break
+        if bad:
+            ctx.report('property', bad, case)
+
